@@ -35,7 +35,7 @@ def bounds(tier):
 
 def required_cells(tier):
     return ["distinct-codebase-orders", "distinct-platform-orders", "distinct-scandir-orders", "hashseed", "shuffle", "creation-order",
-            "toml-permuted", "duplicates-present", "cov-compared", "clustering-compared"]
+            "toml-permuted", "duplicates-present", "cov-compared", "clustering-compared", "mode-flag-with-repeated-define"]
 
 
 def gen_case(rng):
@@ -43,6 +43,14 @@ def gen_case(rng):
     case = forest.gen(rng, n_tus=rng.randint(nplat, nplat + 2), n_platforms=nplat, findable=True)
     for tu in case["tus"]:
         tu["search"] = [["I", d] for _, d in tu["search"]]
+    # a mode-enabling flag plus a macro given twice with different values: the first definition must win
+    # whatever the hash seed (the gcc premise run does not see these extra arguments)
+    for tu in case["tus"]:
+        if rng.random() < 0.7:
+            tu["extra_args"] = ["-fopenmp", "-DDUP=1", "-O2", "-DDUP=2", "-DDUP2=b", "-DDUP2=a"]
+        case["files"][tu["file"]] = case["files"][tu["file"]] + [
+            ["chain", [["if", "DUP == 1", [["code"]]], ["elif", "DUP == 2", [["code"]]], ["else", None, [["code"]]]]],
+            ["chain", [["ifdef", "_OPENMP", [["code"]]], ["else", None, [["code"]]]]]]
     case["extra"] = dict(c06.EXTRA)
     case["links"] = {}
     # duplicates: copies of some files under other names
@@ -150,6 +158,8 @@ def check_case(ctx, case, base, cls, do_clustering=False):
                 ("creation-order", dict(hashseed="0", shuffle=None, order=7, perm=0)),
                 ("toml-permuted", dict(hashseed="0", shuffle=None, order=0, perm=5))]
     cells = {"duplicates-present"}
+    if any(tu.get("extra_args") for tu in case["tus"]):
+        cells.add("mode-flag-with-repeated-define")
     runs = []
     cur_order = 0
     for tag, v in variants:
